@@ -302,13 +302,14 @@ func init() {
 	})
 	register(&PropSpec{
 		ID: "C11",
-		Explanation: "Decided: R-ASSERT over the call layer - assertions on the handler's input and the run's step data are justified for the nil interface too. R-DOM/R-FLOW - the step and signal handlers are invoked at exactly one site, outside loops, dominated by a successful Validate of the very value " +
+		Explanation: "Decided: R-HANDLERARG - what comes out of a comma-ok type assertion (the step data typed for the handler) reaches a handler only where the assertion is known to have succeeded. Decided: R-ASSERT over the call layer - assertions on the handler's input and the run's step data are justified for the nil interface too. R-DOM/R-FLOW - the step and signal handlers are invoked at exactly one site, outside loops, dominated by a successful Validate of the very value " +
 			"they receive; CallStep/CallSignal call the step only after a successful Unserialize and pass exactly its result; an accepting return of Call follows the " +
 			"declared-output lookup and carries the output schema's verdict; R-ERRPROV - unknown ID, rejected input and undeclared output each map to their own error type; " +
 			"R-MAPNIL - unknown step/signal/output IDs are never dereferenced; R-STEPDATA + R-ATOMIC - the per-run step data is inserted only on a miss of the same run ID, in " +
 			"the critical section that looked it up, and never removed or replaced. NOT decided: what handlers do; equality of results.",
 		Assumptions: []string{"A4: handler and initializer are user callbacks"},
 		Rules: []func(*Ctx){
+			func(c *Ctx) { c.ruleHandlerArg("R-HANDLERARG"); c.R.Floor("R-HANDLERARG", 1) },
 			func(c *Ctx) {
 				// the call layer itself: assertions on the handler's input and on the run's step data
 				set := map[*ssa.Function]bool{}
@@ -382,7 +383,7 @@ func init() {
 	})
 	register(&PropSpec{
 		ID: "C14",
-		Explanation: "Decided: R-FORWARD must-pass clause - ApplyNamespace / ValidateReferences of a container reach the call on a single child on every path on which they can report success. Decided: R-KEYID - the scope's own table is handed down for linking only after every entry's ID was compared with its key; R-KINDSIB - a case distinction over TypeID() with cases for the reference and the object has one for the scope. Decided: R-TERM (data mode, as under C04) - recursion through references is driven by the input or bounded. Decided: R-FORWARD - ApplyNamespace of every container forwards to every child (json-tagged Serializable field, or map/slice of such; inside a loop for " +
+		Explanation: "R-FORWARD reference clause: a failed lookup never leaves the old link standing (no normal way out of RefSchema.ApplyNamespace with the object not found unless the link was written). Decided: R-FORWARD must-pass clause - ApplyNamespace / ValidateReferences of a container reach the call on a single child on every path on which they can report success. Decided: R-KEYID - the scope's own table is handed down for linking only after every entry's ID was compared with its key; R-KINDSIB - a case distinction over TypeID() with cases for the reference and the object has one for the scope. Decided: R-TERM (data mode, as under C04) - recursion through references is driven by the input or bounded. Decided: R-FORWARD - ApplyNamespace of every container forwards to every child (json-tagged Serializable field, or map/slice of such; inside a loop for " +
 			"collections) with the namespace string and the object table unchanged; the scope hands down its own table exactly for the self namespace and the external " +
 			"table otherwise; the reference links only when the namespace matches, to objects[its own ID]; ValidateReferences visits every child, returns its verdict, and " +
 			"succeeds for a reference iff it is linked; the loaders link all scopes. R-NSDEREF - code that runs while a namespace is being applied uses a child Object through a method that needs a linked reference (the RefSchema methods that panic on a nil cache) only where the child is known not to be an unlinked reference. NOT decided: the metamorphic 'inline the reference' equivalence over inputs; " +
@@ -472,13 +473,14 @@ func init() {
 	})
 	register(&PropSpec{
 		ID: "C18",
-		Explanation: "Decided: R-ERRIDENT - every use of the package-level reflect.Type of error is an operand of == / != (Implements / AssignableTo would accept concrete error types as a handler\u0027s error result). Decided: R-ACCEPT - IsNil() and IsVariadic() of the handler consulted on every accepting path; R-CALL - a panic of the handler is caught. R-TYPEID - the handler's parameter and result types (values of reflect.Type.In/Out) influence acceptance only through identity comparison with a " +
+		Explanation: "Decided: R-CTORFLAG - every value the constructor of the call error hands out is a record made there from the error and the flag it was given. Decided: R-ERRIDENT - every use of the package-level reflect.Type of error is an operand of == / != (Implements / AssignableTo would accept concrete error types as a handler\u0027s error result). Decided: R-ACCEPT - IsNil() and IsVariadic() of the handler consulted on every accepting path; R-CALL - a panic of the handler is caught. R-TYPEID - the handler's parameter and result types (values of reflect.Type.In/Out) influence acceptance only through identity comparison with a " +
 			"reflect.Type or through Kind(), never through their name/String or Implements/AssignableTo/ConvertibleTo; R-REFLECT - Handler.Type() is only reached after " +
 			"Kind() == Func was established (locally, by a callee's accepting return, or at every call site); R-DOM - the reflective handler call is dominated by " +
 			"len(arguments) == NumIn and is not in a loop; R-ERRPROV - every error returned by Call is a FunctionCallError constructed there, flagged function-reported exactly " +
 			"when the wrapped error derives from the handler's results. NOT decided: the full acceptance predicate over all Go signatures (result-count arithmetic), " +
 			"argument type checking at call time.",
 		Rules: []func(*Ctx){
+			func(c *Ctx) { c.ruleCtorFlag("R-CTORFLAG"); c.R.Floor("R-CTORFLAG", 1) },
 			func(c *Ctx) { c.ruleTypeID("R-TYPEID") },
 			func(c *Ctx) { c.ruleErrIdent("R-ERRIDENT") },
 			func(c *Ctx) { c.ruleAccept("R-ACCEPT"); c.R.Floor("R-ACCEPT", 2) },
